@@ -182,7 +182,9 @@ def l2_leak_terms(kobj, kind, x, z, T, coefs_abs, eps_mach):
     zero = torch.zeros(f, nz, dtype=torch.float64)
     # Lpq with p = 2 goes through the same torch.cdist(p=2) (expansion mode above 25 rows, whose backward also forms
     # x·Σ(g/d) − Σ(g/d)·z as two sums): same factor k·(q/L^q)·D^{q-2}, same cancellation
-    l2like = kind in ('l2', 'light') or (kind == 'lpq' and float(getattr(kobj, 'p', 0.0)) == 2.0)
+    # ... and so does the product kernel with exponent 2 (cdist(p=q) with q = 2: the same function exp(-d^2/L^2))
+    l2like = kind in ('l2', 'light') or (kind == 'lpq' and float(getattr(kobj, 'p', 0.0)) == 2.0) or \
+        (kind == 'prod' and float(kobj.exponent) == 2.0)
     if not l2like:
         return zero, zero, zero
     d = x.shape[1]
